@@ -1,6 +1,7 @@
 /* tree world: C01 (ordered trees hold the inserted-minus-erased multiset, in order), C02 (red-black rules), C15 (clear), for
  * cstl_bintree and cstl_rbtree (selected per configuration) */
 #include "cstl/rbtree.h"
+#include <limits.h>
 #define W_AUDIT_NEW_STATES_ONLY 1   /* the key holds the implementation's raw state AND the reference model, so the audit verdict is a function of the key */
 #include "../engine/mc.h"
 #include <sanitizer/asan_interface.h>
@@ -36,10 +37,12 @@ struct cfg { int rb, n, cmp; const char *pool; };
 static const struct cfg quick_cfgs[] = {
     { 0, 8, 0, "distinct" }, { 0, 7, 0, "paired" }, { 0, 6, 0, "allequal" }, { 0, 7, 1, "heavy" }, { 0, 7, 2, "distinct" }, { 0, 7, 1, "paired" },
     { 1, 11, 0, "distinct" }, { 1, 9, 0, "paired" }, { 1, 6, 0, "allequal" }, { 1, 7, 1, "heavy" }, { 1, 10, 2, "distinct" }, { 1, 8, 1, "paired" },
+    { 0, 6, 3, "paired" }, { 1, 8, 3, "paired" },
 };
 static const struct cfg thorough_cfgs[] = {
     { 0, 11, 0, "distinct" }, { 0, 10, 0, "paired" }, { 0, 8, 0, "allequal" }, { 0, 9, 1, "heavy" }, { 0, 10, 2, "distinct" }, { 0, 10, 1, "paired" }, { 0, 9, 2, "heavy" },
     { 1, 13, 0, "distinct" }, { 1, 11, 0, "paired" }, { 1, 8, 0, "allequal" }, { 1, 9, 1, "heavy" }, { 1, 12, 2, "distinct" }, { 1, 11, 1, "paired" }, { 1, 9, 2, "heavy" }, { 1, 12, 1, "distinct" },
+    { 0, 9, 3, "paired" }, { 1, 10, 3, "paired" }, { 1, 11, 3, "distinct" },
 };
 static const struct cfg *cfgs(int thorough, int *n)
 {
@@ -65,7 +68,7 @@ static void w_setup(int cfg, int thorough)
     key_alpha[nkeys_alpha++] = 99;      /* an absent key, greater than all */
     key_alpha[nkeys_alpha++] = -7;      /* an absent key, smaller than all */
     snprintf(cfgdesc, sizeof cfgdesc, "%s, pool of %d elements with %s keys, comparator %s", RB ? "cstl_rbtree" : "cstl_bintree", N, c->pool,
-             CMPMODE == 0 ? "a-b" : CMPMODE == 1 ? "sign only" : "reversed");
+             CMPMODE == 0 ? "a-b" : CMPMODE == 1 ? "sign only" : CMPMODE == 2 ? "reversed" : "INT_MIN/0/INT_MAX");
     w_nops = 0;
     for (i = 0; i < N; i++) { w_ops[w_nops++] = OP(O_INS, i); w_ops[w_nops++] = OP(O_INS_HINT, i); }
     for (k = 0; k < nkeys_alpha; k++) w_ops[w_nops++] = OP(O_ERASE_KEY, k);
@@ -82,6 +85,7 @@ static int cmp_elem(const void *a, const void *b, void *p)
     (void)p; cmp_calls++;
     if (CMPMODE == 1) return d < 0 ? -1 : d > 0;
     if (CMPMODE == 2) return -d;
+    if (CMPMODE == 3) return d < 0 ? INT_MIN : d > 0 ? INT_MAX : 0;       /* extreme magnitudes: -result would overflow */
     return d;
 }
 static int korder(int ka, int kb) { int d = ka - kb; return CMPMODE == 2 ? -d : d; }
@@ -148,7 +152,7 @@ static int cb_visit(const void *e, cstl_bintree_visit_order_t ord, void *p)
     if (v_n < MAXV) { v_idx[v_n] = idx_of(e); v_ord[v_n] = (int)ord; }
     v_n++;
     if (v_n > 3 * MAXN + 8) return 9999;                 /* watchdog: link cycle */
-    if (v_stop_at >= 0 && v_n == v_stop_at + 1) return v_stop_at + 1;
+    if (v_stop_at >= 0 && v_n == v_stop_at + 1) return (v_stop_at & 1) ? -(v_stop_at + 1) : v_stop_at + 1;      /* stop values of both signs */
     return 0;
 }
 static int clr_count[MAXN], clr_bad;
@@ -330,7 +334,7 @@ static void audit_tree(int t, unsigned props01)
             v_n = 0; v_stop_at = j;
             SHIM_CALL(ab, r = t_foreach(t, cb_visit, NULL, rev));
             MC_COUNT(K_EARLY_STOPS);
-            MC_CHECK(props01, !ab && r == j + 1 && v_n == j + 1, "foreach(%s) with a visitor returning %d at visit #%d returned %d after %d visits", rev ? "REV" : "FWD", j + 1, j, r, v_n);
+            MC_CHECK(props01, !ab && r == ((j & 1) ? -(j + 1) : j + 1) && v_n == j + 1, "foreach(%s) with a visitor returning %d at visit #%d returned %d after %d visits", rev ? "REV" : "FWD", (j & 1) ? -(j + 1) : j + 1, j, r, v_n);
             if (mc_branch_dead) return;
         }
     }
@@ -395,7 +399,7 @@ static void canon_one(int t)
 {
     { ck_nodes = 0; KB_C('T'); KB_U(t_bt(t)->size); KB_C('o'); KB_U(t_bt(t)->off); if (RB) { KB_C('/'); KB_U(T[t].rb.off); } KB_C(':'); ck(t_bt(t)->root); }
 }
-static void w_canon(void) { int i; canon_one(0); canon_one(1); KB_C('m'); for (i = 0; i < N; i++) KB_C(m_member[i] ? '1' : '0'); }
+static void w_canon(void) { int i; canon_one(0); canon_one(1); KB_C('m'); for (i = 0; i < N; i++) KB_C(m_member[i] ? '1' : '0'); for (i = 0; i < N; i++) if (pool[i].pad != 0x1111 || pool[i].tail != 0x2222 || pool[i].key != keys[i]) { KB_C('X'); KB_U((unsigned)i); } }
 /* C15: after clear the tree object must be field-for-field like the never-used second tree object */
 static void check_fresh(void)
 {
